@@ -51,6 +51,10 @@ Section Spec.
      q_c = floor(max/count_c) times, so max/2 < count'_c <= max *)
   Definition keeps_all (out : list Z) : bool := forallb (fun i => 1 <=? occ i out) all_ids.
 
+  (* an unlabeled sample (label -1) belongs to no class: selected exactly once *)
+  Definition unlabeled_once (out : list Z) : bool :=
+    forallb (fun i => if cls i =? -1 then occ i out =? 1 else true) all_ids.
+
   Definition class_ids (C : Z) : list Z := zrange 0 C.
 
   Definition balanced_multiply (C : Z) (out : list Z) : bool :=
